@@ -769,3 +769,60 @@ func (b Bounds) GenScopeShape(eco, shape string, emit func(*Case)) {
 		}
 	}
 }
+
+// LadderPre interleaves pre-releases with releases, so that the version directly above a
+// requirement's range can be a pre-release whose step differs from that of the next release.
+var LadderPre = []string{"1.0.0", "1.0.1-rc.1", "1.0.1", "1.1.0-rc.1", "1.1.0", "2.0.0-rc.1", "2.0.0"}
+
+// GenPreShape enumerates the "prerelease" shape (used by C11 only; GenFix is unchanged):
+//
+//	prerelease  manifest {d1: R}; d1 publishes S; vulns on d1
+//	            S in Subsets(LadderPre, MaxVers) x R in {a, ^a, ~a (npm) | a, [a,) (Maven)} for a in S + the lowest
+//	            LadderPre version missing from S x {[0,f) for f in LadderPre, [0,nofix)} x CfgSets(d1)
+func (b Bounds) GenPreShape(eco string, emit func(*Case)) {
+	bp := b
+	bp.Ladder = LadderPre
+	cfgs := b.CfgSets([]string{"d1"})
+	for _, s := range Subsets(LadderPre, b.MaxVers) {
+		var reqs []string
+		for _, a := range bp.anchorsFor(s) {
+			if eco == NPM {
+				reqs = append(reqs, a, "^"+a, "~"+a)
+			} else {
+				reqs = append(reqs, a, "["+a+",)")
+			}
+		}
+		for _, r := range reqs {
+			for i := 0; i <= len(LadderPre); i++ {
+				v := Vuln{ID: "V1", Pkg: "d1", Introduced: "0"}
+				if i < len(LadderPre) {
+					v.Fixed = LadderPre[i]
+				}
+				for _, cfg := range cfgs {
+					emit(&Case{Eco: eco, Shape: "prerelease", Pkgs: []Pkg{{Name: "d1", Vers: plainVers(s)}},
+						Manifest: []Req{{Name: "d1", Req: r}}, Vulns: []Vuln{v}, Cfg: cfg})
+				}
+			}
+		}
+	}
+}
+
+// GenUpdateDup enumerates Maven Update tuples whose manifest requires ONE package twice at independent
+// versions (the jar and its tests classifier / test-jar type), in both declaration orders by construction
+// (a1, a2 range over all pairs):
+//
+//	update-dup  manifest {d1: a1, d1[classifier tests, type test-jar]: a2}; d1 publishes S
+//	            S in Subsets(ladder, MaxVers) x a1, a2 in ladder x CfgSets(d1)
+func (b Bounds) GenUpdateDup(emit func(*Case)) {
+	l := b.Ladder
+	for _, s := range Subsets(l, b.MaxVers) {
+		for _, a1 := range l {
+			for _, a2 := range l {
+				for _, cfg := range b.CfgSets([]string{"d1"}) {
+					emit(&Case{Eco: Maven, Shape: "update-dup", Pkgs: []Pkg{{Name: "d1", Vers: plainVers(s)}},
+						Manifest: []Req{{Name: "d1", Req: a1}, {Name: "d1", Req: a2, Classifier: "tests", Type: "test-jar"}}, Cfg: cfg})
+				}
+			}
+		}
+	}
+}
